@@ -34,6 +34,7 @@ Fifth round: C10.2 the start-up delete pass runs after the start-up cycle (share
 Sixth round: C10.3 every read of the store on the restore path sits in a try block that handles ObjectNotFoundError (no look-before-you-read), and delete_server tells the master only after its deletions.
 Seventh round: C10.1 instances leave the cell only through remove_app of the master (which deletes the record); C10.3 a kept placement is revalidated against label, traits and state for every instance, blacklisted or not (shared with C03.1).
 Eighth round: C10.3 a node that comes back is reloaded, not loaded as new (shared presence clause of C08.5), and reload_server drops a server for good only without a record (shared with C09.4).
+Tenth round: C10.3 after the integrity check deleted the record its map names, the map is moved to the record that was kept before the walk goes on (the cross-check reads the map; F32, repaired in /repo).
 Does NOT decide that a restarted master completes start-up and republishes a
 placement equal to its model (behaviour of a run; see C09/C11).
 """
@@ -345,8 +346,77 @@ def _tolerant_reads(ctx, rule='C10.3'):
                 % seen, rule=rule)
 
 
+
+def _integrity_repair(ctx):
+    """C10.3: the running master does not fail its own integrity check on a
+    state it has just repaired.  The check walks the stored records, keeps
+    in a map the server each instance was first seen under, deletes the
+    record that disagrees with the model when an instance is met twice, and
+    then cross-checks the model against *that map*.  When the record deleted
+    is the one the map names, the map must be moved to the record that was
+    kept - otherwise the cross-check reads the server that was just removed,
+    reports a corrupted placement and the master exits although the store is
+    consistent again."""
+    loader = ctx.index.get_class(K.LOADER, 'Loader')
+    func = loader.methods.get('check_placement_integrity')
+    if func is None:
+        return
+    graph = ctx.cfg(func)
+    # the map: a local dict subscripted by the instance and read by the
+    # cross-check (compared with <app>.server)
+    maps = set()
+    for sub in K.walk_no_nested(func.node):
+        if isinstance(sub, ast.Compare) and len(sub.ops) == 1:
+            for side in (sub.left, sub.comparators[0]):
+                if isinstance(side, ast.Subscript) and isinstance(
+                        side.value, ast.Name) and any(
+                            N.txt(o).endswith('.server')
+                            for o in (sub.left, sub.comparators[0])
+                            if o is not side):
+                    maps.add(side.value.id)
+    if not maps:
+        return
+    judged = 0
+    for node in graph.nodes:
+        for call in C.node_calls(node):
+            if not (K.is_meth(call, 'delete') and call.args):
+                continue
+            arg = N.txt(call.args[0])
+            named = [m for m in maps if '%s[' % m in arg]
+            if not named:
+                continue
+            # the record deleted is the one the map names: before the walk
+            # goes on (next record, next server, or the cross-check) the map
+            # entry is stored again
+            mname = named[0]
+            judged += 1
+            loop = K.enclosing_for(graph, node)
+            restores = [n for n in graph.nodes if n.kind == 'stmt' and
+                        isinstance(n.ast, ast.Assign) and any(
+                            isinstance(t, ast.Subscript) and
+                            N.txt(t.value) == mname
+                            for t in n.ast.targets)]
+            goals = [loop] if loop is not None else [graph.exit]
+            path = K.find_path(node, goals,
+                               cut_node=lambda n: n in restores,
+                               follow_exc=False)
+            ctx.ob('C10.3', func, node, path is None,
+                   'after the record the map names was deleted the map is '
+                   'moved to the record that was kept (the cross-check '
+                   'reads the map)' if path is None else
+                   'the record %s names is deleted and the map keeps naming '
+                   'it: the cross-check that follows compares the model '
+                   'with the removed server and the master fails its own '
+                   'integrity check on a store it has just repaired' % mname,
+                   path=K.describe(path) if path else None,
+                   construct='integrity map follows the repair')
+    ctx.require(judged >= 1, 'repair delete of the record the integrity map '
+                'names', rule='C10.3', func=func)
+
+
 def check(ctx):
     run(ctx)
+    _integrity_repair(ctx)
     _server_deletion(ctx)
     _tolerant_reads(ctx)
     # shared with C09.4 / C11.4: what the new master needs to complete its
@@ -458,6 +528,9 @@ _M = 'lib/python/treadmill/scheduler/master.py'
 _L = 'lib/python/treadmill/scheduler/loader.py'
 
 MUTANTS = [
+    ('revert-F32-integrity-map-keeps-the-deleted-record', [(_L, """                    # The record that is kept is the one under this server.
+                    app2server[app] = server
+""", "")], 'C10.3'),
     ('reschedule-single-pass', [(_M, """        for app, before, _exp_before, after, _exp_after in changed_placement:
             if before and before != after:
                 _LOGGER.info('Unscheduling: %s - %s', before, app)
